@@ -6,16 +6,16 @@ usage: coqbuild.py [-f] target.vo ...      (paths relative to /verif/coq; -f for
 """
 import fcntl, os, re, subprocess, sys, time
 COQ = os.path.join(os.path.dirname(os.path.dirname(os.path.abspath(__file__))), "coq")
-FLAGS = ["-Q", "model", "SigM", "-Q", "proofs", "SigP", "-Q", "props", "SigT",
+FLAGS = ["-Q", "model", "SigM", "-Q", "proofs", "SigP", "-Q", "props", "SigT", "-Q", "gen", "SigG",
          "-w", "-notation-overridden,-deprecated-hint-without-locality,-deprecated-instance-without-locality"]
 
 def deps():
     files = []
-    for d in ("model", "proofs", "props"):
+    for d in ("gen", "model", "proofs", "props"):
         p = os.path.join(COQ, d)
         if os.path.isdir(p):
             files += [os.path.join(d, f) for f in sorted(os.listdir(p)) if f.endswith(".v")]
-    out = subprocess.run(["coqdep", "-Q", "model", "SigM", "-Q", "proofs", "SigP", "-Q", "props", "SigT"] + files,
+    out = subprocess.run(["coqdep", "-Q", "model", "SigM", "-Q", "proofs", "SigP", "-Q", "props", "SigT", "-Q", "gen", "SigG"] + files,
                          cwd=COQ, stdout=subprocess.PIPE, stderr=subprocess.DEVNULL, text=True).stdout
     d = {}
     for line in out.splitlines():
